@@ -407,6 +407,10 @@ def run_read(case, tmp):
                          ("h.read(name, indices=tuple, indexing=position)", lambda: h.read(name, indices=pt, indexing="position"))]:
             differential(f, memp, base + "%s pidx=%s" % (sname, core.jsonable(pidx)), sig)
             check(list(pdict_arg.keys()) == list(pdict.keys()), "index-mapping-modified", {"what": base + sname, "now": core.jsonable(list(pdict_arg.keys()))}, sig)
+        if case["keepdims"]:
+            differential(lambda: v.read(pt, indexing="position", keepdims=True), lambda: A.take(pt, indexing="position", keepdims=True), base + "read(t, indexing=position, keepdims=True) pidx=%s" % core.jsonable(pidx), sig)
+            differential(lambda: da.read_nc(path, name, indices=dict(pdict), indexing="position", keepdims=True), lambda: A.take(dict(pdict), indexing="position", keepdims=True),
+                         base + "read_nc(f, name, indices=dict, indexing=position, keepdims=True) pidx=%s" % core.jsonable(pidx), sig)
         cl.add("read:position")
         # ---- tolerance
         t = case["tol"]
@@ -430,6 +434,13 @@ def run_read(case, tmp):
                 differential(lambda: da.read_nc(path, indices=dict(one)), lambda: loaded.take(indices=dict(one)), base + "read_nc(f, indices=%s)" % core.jsonable(one), sig, compare=same_dataset_ordered)
                 differential(lambda: h.sel(**one), lambda: loaded.sel(**one), base + "h.sel(%s)" % core.jsonable(one), sig, compare=same_dataset_ordered)
                 cl.add("read:dataset")
+        if dsdims and len(loaded.axes[dsdims[0]]) > 0:
+            # a bare index at dataset level acts on the dataset's first dimension (also the index 0, an empty list, a list of one position)
+            for bare in (0, -1, [0], [], slice(0, 1)):
+                differential(lambda: h.read(indices=bare, indexing="position"), lambda: loaded.take(indices=bare, axis=dsdims[0], indexing="position"), base + "h.read(indices=%r, indexing=position)" % (bare,), sig, compare=same_dataset_ordered)
+                differential(lambda: da.read_nc(path, indices=bare, indexing="position"), lambda: loaded.take(indices=bare, axis=dsdims[0], indexing="position"), base + "read_nc(f, indices=%r, indexing=position)" % (bare,), sig, compare=same_dataset_ordered)
+            differential(lambda: h.ix[0], lambda: loaded.ix[0], base + "h.ix[0]", sig, compare=same_dataset_ordered)
+            cl.add("read:dataset-bare-index")
         if dsdims and pdict:
             k0 = list(pdict)[0]
             one = {k0: pdict[k0]}
